@@ -100,13 +100,14 @@ def cmd_verify(ids):
 
 
 def cmd_detect(ids):
-    st = sh(['git', '-C', '/repo', 'status', '--porcelain'])
+    REPO = os.environ.get('SEED_REPO', '/repo')     # a scratch worktree of /repo may stand in for it
+    st = sh(['git', '-C', REPO, 'status', '--porcelain'])
     assert not st.stdout.strip(), '/repo is not clean: ' + st.stdout
     summary = {}
     for sid in ids_or_all(ids):
         d = os.path.join(SEEDED, sid)
         meta = load_meta(d)
-        ap = sh(['git', '-C', '/repo', 'apply', os.path.join(d, 'patch.diff')])
+        ap = sh(['git', '-C', REPO, 'apply', os.path.join(d, 'patch.diff')])
         if ap.returncode != 0:
             print(sid, 'patch does not apply', ap.stderr[:200])
             continue
@@ -114,7 +115,7 @@ def cmd_detect(ids):
             fired = {}
             errors = {}
             env = dict(os.environ, SA_NOWRITE='1')
-            procs = {p: subprocess.Popen([PY, '-m', 'sa.check', p, '--tier', 'quick'], cwd=V, env=env, stdout=subprocess.PIPE, stderr=subprocess.STDOUT, text=True)
+            procs = {p: subprocess.Popen([PY, '-m', 'sa.check', p, '--tier', 'quick', '--repo', REPO], cwd=V, env=env, stdout=subprocess.PIPE, stderr=subprocess.STDOUT, text=True)
                      for p in PROPS}
             for p, pr in procs.items():
                 out, _ = pr.communicate()
@@ -124,7 +125,7 @@ def cmd_detect(ids):
                 elif pr.returncode == 2:
                     errors[p] = [l for l in out.splitlines() if l.startswith('ANALYSIS-ERROR')][:2]
         finally:
-            sh(['git', '-C', '/repo', 'checkout', '--', '.'])
+            sh(['git', '-C', REPO, 'checkout', '--', '.'])
         if 'detection' not in meta:      # the very first run against this change, before any tuning of the rules
             meta['first_shot'] = 'detected' if meta.get('property') in fired else ('other property only' if fired else
                                                                                   ('analysis-error only' if errors else 'missed'))
@@ -136,7 +137,7 @@ def cmd_detect(ids):
         print('%-14s target=%s %s  fired=%s%s' % (sid, meta.get('property'), 'DETECTED' if meta['detection']['target_detected'] else
                                                ('other-prop' if fired else 'MISSED'), {k: v for k, v in fired.items()},
                                                ('  errors=%s' % list(errors)) if errors else ''))
-    st = sh(['git', '-C', '/repo', 'status', '--porcelain'])
+    st = sh(['git', '-C', REPO, 'status', '--porcelain'])
     assert not st.stdout.strip(), '/repo left dirty!'
     return summary
 
